@@ -1,9 +1,9 @@
 (* C12 — IPFS proxy hijacks exactly the pinning endpoints and relays the rest.
-   Statements only; every proof is `exact <lemma of Proofs/C12_Proxy.v>`.
+   Statements only; every proof is `exact <lemma of Proofs/C12_Proxy.v or Proofs/C12_Monitor.v>`.
    Quantification: every request (method, path, query, body), every outcome of the abstract parsers
    (cleanPath, url, go-path, cid, AddParamsFromQuery, importer), every RPC failure script, every daemon answer.
    The routing table is the one regenerated from api/ipfsproxy/ipfsproxy.go at this run (Gen/ProxyRoutes.v). *)
-From V Require Import Base.Common Base.C11_Http Gen.ProxyRoutes Model.C12_Proxy Model.C12_Check Proofs.C12_Proxy.
+From V Require Import Base.Common Base.C11_Http Gen.ProxyRoutes Model.C12_Proxy Model.C12_Check Proofs.C12_Proxy Proofs.C12_Monitor.
 Open Scope string_scope.
 Open Scope list_scope.
 
@@ -91,3 +91,157 @@ Example proxy_example_onlyhash :
   let e := mk_env false [] [] (Some (mk_addp "" 0 0 true)) true "root" [] false "/api/v0/version" "r" 3 1 1 false 200 "" in
   handle HAdd e 1 [("only-hash", ["true"])] = ([], 500%N, false, 0%N).
 Proof. vm_compute. reflexivity. Qed.
+
+(* ---------------- the run-time monitors of Model/C12_Check.v and the theorems above ---------------- *)
+(* check_case (id, (rq, e, cmp, o)) judges what the IMPLEMENTATION did (o) on request rq in environment e: code 1 (when cmp)
+   o differs from the model's result; codes 10..15 the boolean sub-properties applied to o itself. Below, for every request
+   and environment (no bound): (soundness) a case on which a code is absent satisfies the Prop-level clause the code stands
+   for; (completeness w.r.t. the model) the case annotated with the model's own result raises no code at all; (transfer) an
+   observation that agrees with the model raises no code at all. Definitions of the Prop-level readings (relay_spec,
+   redirect_spec, mutating_request, preflight_or_extraction, answered_with_error, requested, performed_exactly,
+   agrees_with_model, code_absent): Proofs/C12_Monitor.v. The classification in the hypotheses is spec_class, which
+   proxy_classify_spec proves equal to the model's classify and proxy_classify_sound/exact/slash/other_methods characterise. *)
+
+(* code 11 absent on a non-hijacked request: relay identity - no cluster call, the daemon received exactly the request
+   (method, URI as sent, body), the answer is the daemon's status and body (empty for HEAD), no stream-error trailer *)
+Theorem proxy_monitor_relay_sound id rq e cmp o :
+  e_redirect e = false -> spec_class (rq_meth rq) (rq_path rq) = Relay ->
+  code_absent 11 (check_case (id, (rq, e, cmp, o))) -> relay_spec rq e o.
+Proof. exact (monitor11_sound_l id rq e cmp o). Qed.
+Print Assumptions proxy_monitor_relay_sound.
+
+(* code 15 absent on a non-canonical path: no cluster call, and either a 301 with nothing forwarded or a plain relay *)
+Theorem proxy_monitor_noncanonical_sound id rq e cmp o :
+  e_redirect e = true -> code_absent 15 (check_case (id, (rq, e, cmp, o))) -> redirect_spec rq e o.
+Proof. exact (monitor15_sound_l id rq e cmp o). Qed.
+Print Assumptions proxy_monitor_noncanonical_sound.
+
+(* code 13 absent on a hijacked request: no request the daemon received is one of the mutating calls the proxy replaces
+   (any method but OPTIONS on a path starting with pin/add, pin/rm, pin/update, add, repo/gc under /api/v0) *)
+Theorem proxy_monitor_no_mutation_forwarded_sound id rq e cmp o h sl :
+  e_redirect e = false -> spec_class (rq_meth rq) (rq_path rq) = Hijack h sl ->
+  code_absent 13 (check_case (id, (rq, e, cmp, o))) -> forall d, In d (o_dreqs o) -> ~ mutating_request d.
+Proof. exact (monitor13_sound_l id rq e cmp o h sl). Qed.
+Print Assumptions proxy_monitor_no_mutation_forwarded_sound.
+
+(* code 10 absent on a hijacked request: the request itself never reached the daemon - whatever the daemon received is a
+   CORS pre-flight (OPTIONS) or the proxy's own header extraction (POST ExtractHeadersPath) *)
+Theorem proxy_monitor_not_forwarded_sound id rq e cmp o h sl :
+  e_redirect e = false -> spec_class (rq_meth rq) (rq_path rq) = Hijack h sl ->
+  code_absent 10 (check_case (id, (rq, e, cmp, o))) -> forall d, In d (o_dreqs o) -> preflight_or_extraction e d.
+Proof. exact (monitor10_sound_l id rq e cmp o h sl). Qed.
+Print Assumptions proxy_monitor_not_forwarded_sound.
+
+(* code 12 absent on a hijacked request: answered with an error (status >= 400, or for add the stream-error trailer) while no
+   cluster call failed means that no mutating cluster call was made - the observed counterpart of proxy_error_no_op *)
+Theorem proxy_monitor_error_no_op_sound id rq e cmp o h sl :
+  e_redirect e = false -> spec_class (rq_meth rq) (rq_path rq) = Hijack h sl ->
+  code_absent 12 (check_case (id, (rq, e, cmp, o))) ->
+  answered_with_error h o -> none_failed (o_calls o) -> no_mutation (o_calls o).
+Proof. exact (monitor12_sound_l id rq e cmp o h sl). Qed.
+Print Assumptions proxy_monitor_error_no_op_sound.
+
+(* code 14 absent on a hijacked request: a successful answer (none of whose calls failed; always for repo/stat, which skips
+   failing peers) performed exactly the requested operation - the calls are the ones `requested` lists for the route with the
+   parsed path and options, in order, nothing else (repo/stat: Peers, one RepoStat per peer, the sum over the peers that
+   answered) - the observed counterpart of proxy_ops_faithful; in particular an unparsable argument is never answered with success *)
+Theorem proxy_monitor_ops_faithful_sound id rq e cmp o h sl :
+  e_redirect e = false -> spec_class (rq_meth rq) (rq_path rq) = Hijack h sl ->
+  code_absent 14 (check_case (id, (rq, e, cmp, o))) ->
+  ~ answered_with_error h o -> (none_failed (o_calls o) \/ h = HRepoStat) -> performed_exactly h e (eff_query rq sl) o.
+Proof. exact (monitor14_sound_l id rq e cmp o h sl). Qed.
+Print Assumptions proxy_monitor_ops_faithful_sound.
+
+(* code 1 absent on a compared case: the observation agrees with the model's result on everything code 1 compares *)
+Theorem proxy_monitor_model_eq_sound id rq e o :
+  code_absent 1 (check_case (id, (rq, e, true, o))) -> agrees_with_model rq e o.
+Proof. exact (monitor1_sound_l id rq e o). Qed.
+Print Assumptions proxy_monitor_model_eq_sound.
+
+(* completeness w.r.t. the model: for EVERY request and environment the case annotated with the model's own result raises no
+   code at all (1 and 10..15). Guard: the configured header-extraction request is not itself one of the mutating daemon calls
+   (the harness builds the proxy with cfg.Default(): ExtractHeadersPath = "/api/v0/version") *)
+Theorem proxy_model_passes_monitor id rq e cmp :
+  mutating_dreq ("POST", e_extract e, "") = false -> check_case (id, (rq, e, cmp, obs_of (run rq e))) = [].
+Proof. exact (model_passes_monitor_l id rq e cmp). Qed.
+Print Assumptions proxy_model_passes_monitor.
+
+(* transfer: an observation that agrees with the model raises none of the codes 10..15 (on a non-canonical path code 15 also
+   wants not even a pre-flight at the daemon, which code 1 does not compare when the answer is produced by the proxy) *)
+Theorem proxy_agreement_transfers rq e o :
+  mutating_dreq ("POST", e_extract e, "") = false -> (e_redirect e = true -> o_dreqs o = []) ->
+  agrees_with_model rq e o -> spec_codes rq e o = [].
+Proof. exact (agreement_transfers_l rq e o). Qed.
+Print Assumptions proxy_agreement_transfers.
+
+(* hence on a compared case the absence of code 1 alone implies the absence of every code, and with the soundness theorems
+   above every clause of the property for that observation *)
+Theorem proxy_no_code1_no_code id rq e o :
+  mutating_dreq ("POST", e_extract e, "") = false -> (e_redirect e = true -> o_dreqs o = []) ->
+  code_absent 1 (check_case (id, (rq, e, true, o))) -> check_case (id, (rq, e, true, o)) = [].
+Proof. exact (no_code1_no_code_l id rq e o). Qed.
+Print Assumptions proxy_no_code1_no_code.
+
+(* the boolean monitors are exactly their Prop-level readings (both directions) *)
+Theorem proxy_monitor_readings rq e h q o d :
+  (relay_identity rq e o = true <-> relay_spec rq e o) /\ (mutating_dreq d = true <-> mutating_request d) /\
+  (answered_error h o = true <-> answered_with_error h o) /\ (faithful h e q o = true <-> performed_exactly h e q o) /\
+  (model_eqb rq e o = true <-> agrees_with_model rq e o).
+Proof.
+  exact (conj (relay_identity_spec rq e o) (conj (mutating_dreq_spec d) (conj (answered_error_spec h o)
+        (conj (faithful_spec h e q o) (model_eqb_spec rq e o))))).
+Qed.
+Print Assumptions proxy_monitor_readings.
+
+(* non-vacuity: a fresh proxy, POST /api/v0/pin/add/QmFoo?type=direct *)
+Example proxy_monitor_example :
+  let e := mk_env false [("QmFoo", Some "/ipfs/QmFoo")] [] None true "root" [] true "/api/v0/version" "r" 3 1 1 false 200 "daemon" in
+  let rq := mk_req "POST" "/api/v0/pin/add/QmFoo" "/api/v0/pin/add/QmFoo?type=direct" [("type", ["direct"])] "" 0 in
+  let good := mk_obs [(CPinPath "/ipfs/QmFoo" Direct "", false)] [("POST", "/api/v0/version", "")] 200 false "" 0 in
+  (* the guard holds, the request is hijacked, the model performs the direct pin after the one-time header extraction *)
+  mutating_dreq ("POST", e_extract e, "") = false /\
+  spec_class (rq_meth rq) (rq_path rq) = Hijack HPin (Some "QmFoo") /\ obs_of (run rq e) = good /\
+  check_case (0%N, (rq, e, true, good)) = [] /\
+  (* so every soundness hypothesis is satisfiable, and the conclusion of code 14's theorem reads: *)
+  performed_exactly HPin e (eff_query rq (Some "QmFoo")) good /\
+  requested e (eff_query rq (Some "QmFoo")) HPin [CPinPath "/ipfs/QmFoo" Direct ""] /\
+  (* wrong observations are rejected: the request forwarded to the daemon instead of pinned; pinned recursively instead of
+     directly; pinned and then answered with an error *)
+  check_case (0%N, (rq, e, true, mk_obs [] [("POST", "/api/v0/pin/add/QmFoo?type=direct", "")] 200 false "" 0))
+    = [(0, 1, 0); (0, 13, 0); (0, 14, 0); (0, 10, 0)]%N /\
+  check_case (0%N, (rq, e, true, mk_obs [(CPinPath "/ipfs/QmFoo" Recursive "", false)] [("POST", "/api/v0/version", "")] 200 false "" 0))
+    = [(0, 1, 0); (0, 14, 0)]%N /\
+  check_case (0%N, (rq, e, true, mk_obs [(CPinPath "/ipfs/QmFoo" Direct "", false)] [("POST", "/api/v0/version", "")] 500 false "" 0))
+    = [(0, 1, 0); (0, 12, 0)]%N.
+Proof.
+  cbv zeta. repeat split; try (vm_compute; reflexivity).
+  - exists [CPinPath "/ipfs/QmFoo" Direct ""]. split; [|reflexivity].
+    refine (RqPin _ _ "/ipfs/QmFoo" _). vm_compute. reflexivity.
+  - refine (RqPin _ _ "/ipfs/QmFoo" _). vm_compute. reflexivity.
+Qed.
+
+(* the same path under DELETE is relayed: the model forwards it untouched; a relay that drops the query is rejected; on a
+   non-canonical path a cluster call is rejected *)
+Example proxy_monitor_example_relay :
+  let e := mk_env false [("QmFoo", Some "/ipfs/QmFoo")] [] None true "root" [] true "/api/v0/version" "r" 3 1 1 false 200 "daemon" in
+  let e' := mk_env true [("QmFoo", Some "/ipfs/QmFoo")] [] None true "root" [] true "/api/v0/version" "r" 3 1 1 false 200 "daemon" in
+  let rq := mk_req "DELETE" "/api/v0/pin/add/QmFoo" "/api/v0/pin/add/QmFoo?type=direct" [("type", ["direct"])] "b" 0 in
+  spec_class (rq_meth rq) (rq_path rq) = Relay /\
+  obs_of (run rq e) = mk_obs [] [("DELETE", "/api/v0/pin/add/QmFoo?type=direct", "b")] 200 false "daemon" 0 /\
+  relay_spec rq e (obs_of (run rq e)) /\
+  check_case (0%N, (rq, e, true, mk_obs [] [("DELETE", "/api/v0/pin/add/QmFoo", "b")] 200 false "daemon" 0)) = [(0, 1, 0); (0, 11, 0)]%N /\
+  check_case (0%N, (rq, e', true, obs_of (run rq e'))) = [] /\
+  check_case (0%N, (rq, e', true, mk_obs [(CPinPath "/ipfs/QmFoo" Direct "", false)] [] 200 false "" 0)) = [(0, 1, 0); (0, 15, 0)]%N.
+Proof. cbv zeta. repeat split; vm_compute; reflexivity. Qed.
+
+(* the two side conditions are needed. (a) With the header extraction configured onto a hijacked mutating endpoint the model's
+   own result raises code 13: the guard of proxy_model_passes_monitor cannot be dropped. (b) On a non-canonical path an
+   observation with a stray pre-flight agrees with the model (no code 1) and still raises code 15. *)
+Example proxy_monitor_guards_needed :
+  let e2 := mk_env false [("QmFoo", Some "/ipfs/QmFoo")] [] None true "root" [] true "/api/v0/pin/add" "r" 3 1 1 false 200 "daemon" in
+  let e' := mk_env true [("QmFoo", Some "/ipfs/QmFoo")] [] None true "root" [] true "/api/v0/version" "r" 3 1 1 false 200 "daemon" in
+  let rq := mk_req "POST" "/api/v0/pin/add/QmFoo" "/api/v0/pin/add/QmFoo?type=direct" [("type", ["direct"])] "" 0 in
+  mutating_dreq ("POST", e_extract e2, "") = true /\
+  check_case (0%N, (rq, e2, true, obs_of (run rq e2))) = [(0, 13, 0)]%N /\
+  check_case (0%N, (rq, e', true, mk_obs [] [("OPTIONS", "/api/v0/pin/add/QmFoo", "")] 301 false "" 0)) = [(0, 15, 0)]%N.
+Proof. cbv zeta. repeat split; vm_compute; reflexivity. Qed.
